@@ -1,5 +1,410 @@
-"""C20 (part 2): player-list and map trackers - placeholder, filled in below."""
+"""C20 (part 2): player-list and map trackers.
+
+Maps keyed by symbolic keys are modelled by a two-point abstraction: the entry of the key the step touches, the entry of
+ONE OTHER arbitrary key (any key different from the first), and an arbitrary rest.  A step that leaves the second entry
+untouched for an arbitrary second key leaves every other entry untouched: this is the frame condition over the whole view.
+"""
+import ast
+
+import z3
+
+from minecraft.networking.packets.clientbound.play import PlayerListItemPacket, MapPacket
+
+from pyvc.driver import Unit
+from pyvc.values import SInt, SBool, SStr, And, Or, Not, Implies, Unsupported, is_symbolic
+from pyvc.interp import PyRaise
+from pyvc.loops import ForSpec
+from pyvc.builtins_model import SymRange
+from pyvc.harness import native_call
+from .common import raw, loop_keys
+
+PL = PlayerListItemPacket
+PL_ = 'minecraft.networking.packets.clientbound.play.player_list_item_packet.PlayerListItemPacket.'
+MP_ = 'minecraft.networking.packets.clientbound.play.map_packet.MapPacket.'
+
+
+class TwoPointMap(object):
+    """dict with symbolic keys: entries for the keys k1, k2 (k1 != k2 assumed by the unit) and an abstract rest."""
+    ABSENT = None
+
+    def __init__(self, I, k1, e1, k2, e2):
+        self.I = I
+        self.k = [k1, k2]
+        self.e = [e1, e2]
+        self.other_writes = 0
+
+    def _slot(self, key):
+        I = self.I
+        for j in (0, 1):
+            r = I.equals(key, self.k[j])
+            if r is True or (r is not False and I.truth(r)):
+                return j
+        return None
+
+    def get(self, key, default=None):
+        j = self._slot(key)
+        if j is None:
+            raise Unsupported('lookup of a third key in the two-point map')
+        return default if self.e[j] is None else self.e[j]
+
+    def __contains__(self, key):
+        j = self._slot(key)
+        if j is None:
+            raise Unsupported('membership of a third key in the two-point map')
+        return self.e[j] is not None
+
+    def __getitem__(self, key):
+        j = self._slot(key)
+        if j is None or self.e[j] is None:
+            raise KeyError(key)
+        return self.e[j]
+
+    def __setitem__(self, key, value):
+        j = self._slot(key)
+        if j is None:
+            self.other_writes += 1
+            return
+        self.e[j] = value
+
+    def __delitem__(self, key):
+        j = self._slot(key)
+        if j is None:
+            self.other_writes += 1
+            return
+        if self.e[j] is None:
+            raise KeyError(key)
+        self.e[j] = None
+
+
+FIELDS = ('uuid', 'name', 'properties', 'gamemode', 'ping', 'display_name')
+
+
+def sym_item(E, tag, uuid):
+    it = PL.PlayerListItem()
+    vals = dict(uuid=uuid, name=E.new_str(tag + '.name'), properties=['props-' + tag], gamemode=E.new_int(tag + '.gamemode'),
+                ping=E.new_int(tag + '.ping'), display_name=E.new_str(tag + '.display') if E.fork(2, tag + '.has-display') else None)
+    for k, v in vals.items():
+        setattr(it, k, v)
+    return it, vals
+
+
+def same_fields(item, vals):
+    return all(getattr(item, k) is v for k, v in vals.items())
+
+
+class PlayerListStep(Unit):
+    prop = 'C20'
+    name = 'C20.playerlist.step'
+    int_mode = 'int'
+    functions = tuple(PL_ + a + '.apply' for a in ('AddPlayerAction', 'UpdateGameModeAction', 'UpdateLatencyAction',
+                                                   'UpdateDisplayNameAction', 'RemovePlayerAction'))
+    max_paths = 5000
+
+    def run(self, I):
+        E = I.E
+        u, u2 = E.new_str('uuid'), E.new_str('other-uuid')
+        E.assume(u != u2)
+        e1, v1 = (sym_item(E, 'cur', u) if E.fork(2, 'present') else (None, None))
+        e2, v2 = (sym_item(E, 'oth', u2) if E.fork(2, 'other-present') else (None, None))
+        m = TwoPointMap(I, u, e1, u2, e2)
+        plist = PL.PlayerList()
+        plist.players_by_uuid = m
+        kind = ('add', 'gamemode', 'latency', 'display', 'remove')[E.fork(5, 'action')]
+        cls = {'add': PL.AddPlayerAction, 'gamemode': PL.UpdateGameModeAction, 'latency': PL.UpdateLatencyAction,
+               'display': PL.UpdateDisplayNameAction, 'remove': PL.RemovePlayerAction}[kind]
+        act = cls()
+        act.uuid = u
+        new = dict(name=E.new_str('new.name'), properties=['new-props'], gamemode=E.new_int('new.gamemode'),
+                   ping=E.new_int('new.ping'), display_name=E.new_str('new.display') if E.fork(2, 'new-has-display') else None)
+        own = cls.__dict__.get('__slots__', ())
+        for k in ((own,) if isinstance(own, str) else own):
+            setattr(act, k, new[k])
+        try:
+            I.call(I.getattr_(act, 'apply'), plist)
+        except PyRaise as e:
+            E.check('playerlist.no-raise', False, note='%s: %r' % (kind, e.exc))
+            return None
+        after = m.e[0]
+        # frame over the whole view: the arbitrary other entry is untouched, nothing else is written
+        E.check('playerlist.frame', m.e[1] is e2 and (e2 is None or same_fields(e2, v2)) and m.other_writes == 0,
+                note='every other player entry is untouched')
+        if kind == 'add':
+            ok = after is not None and after is not e1 and type(after) is PL.PlayerListItem and after.uuid is u and \
+                all(getattr(after, k) is new[k] for k in new)
+            E.check('playerlist.add-overwrites', ok, note='an add installs a fresh record with exactly the action\'s fields')
+        elif kind == 'remove':
+            E.check('playerlist.remove', after is None, note='removal deletes the entry; unknown players are a no-op')
+        else:
+            field = {'gamemode': 'gamemode', 'latency': 'ping', 'display': 'display_name'}[kind]
+            if e1 is None:
+                E.check('playerlist.update-unknown-noop', after is None, note='updating an unknown player is a no-op')
+            else:
+                want = dict(v1)
+                want[field] = new[field]
+                E.check('playerlist.update-one-field', after is e1 and same_fields(e1, want),
+                        note='exactly the %s field of the existing entry changes' % field)
+        return None
+
+    def replay(self, model, label):
+        return replay_playerlist()
+
+    def bounded(self, rng, tier):
+        rp = replay_playerlist(rng, 300 if tier == 'quick' else 3000)
+        return dict(name='C20.playerlist.histories', evaluations=rp['n'], bound='seeded histories of length 200 over a pool of 4 UUIDs '
+                    'against a reference replay', failures=[dict(call=rp['call'], observed=rp['observed'], witness='playerlist')]
+                    if rp['confirmed'] else [])
+
+
+def replay_playerlist(rng=None, rounds=50):
+    import random
+    rng = rng or random.Random(11)
+    pool = ['00000000-0000-0000-0000-00000000000%d' % i for i in range(4)]
+    n = 0
+    for _ in range(max(1, rounds // 50)):
+        plist = PL.PlayerList()
+        ref = {}
+        for step in range(200):
+            n += 1
+            u = rng.choice(pool)
+            k = rng.randrange(5)
+            pkt = PL()
+            if k == 0:
+                a = PL.AddPlayerAction(uuid=u, name='n%d' % step, properties=[], gamemode=step % 4, ping=step, display_name=None)
+                ref[u] = dict(uuid=u, name=a.name, properties=a.properties, gamemode=a.gamemode, ping=a.ping, display_name=None)
+            elif k == 1:
+                a = PL.UpdateGameModeAction(uuid=u, gamemode=step)
+                if u in ref:
+                    ref[u]['gamemode'] = step
+            elif k == 2:
+                a = PL.UpdateLatencyAction(uuid=u, ping=step)
+                if u in ref:
+                    ref[u]['ping'] = step
+            elif k == 3:
+                a = PL.UpdateDisplayNameAction(uuid=u, display_name='d%d' % step)
+                if u in ref:
+                    ref[u]['display_name'] = 'd%d' % step
+            else:
+                a = PL.RemovePlayerAction(uuid=u)
+                ref.pop(u, None)
+            pkt.action_type, pkt.actions = type(a), [a]
+            kk, v = native_call(pkt.apply, plist)
+            got = {uu: {f: getattr(it, f) for f in FIELDS} for uu, it in plist.players_by_uuid.items()}
+            if kk != 'ok' or got != ref:
+                return dict(confirmed=True, n=n, call='history step %d: %s on %s' % (step, type(a).__name__, u),
+                            observed='%s; tracker %r, replay gives %r' % (kk, got.get(u), ref.get(u)))
+    return dict(confirmed=False, n=n, call='player list histories', observed='conform')
+
+
+class AbsActions(object):
+    def __init__(self, n):
+        self.n = n
+
+
+class PlayerListOrder(Unit):
+    """PlayerListItemPacket.apply applies its actions in list order, each exactly once (list of symbolic length)."""
+    prop = 'C20'
+    name = 'C20.playerlist.order'
+    int_mode = 'int'
+    functions = (PL_ + 'apply',)
+
+    def setup(self, I):
+        keys = loop_keys(raw(PL, 'apply'), PL_ + 'apply', kind=ast.For)
+        unit = self
+
+        class Act(object):
+            def __init__(self, j):
+                self.j = j
+
+            def apply(self, plist):
+                I.E.check('packet.actions-in-order', And(unit.count == self.j, plist is unit.plist))
+                unit.count = unit.count + 1
+        I.loop_specs[keys[0]] = ForSpec('actions', lambda I_, it: it.n, lambda I_, it, j: Act(j),
+                                        lambda I_, fr, j: unit.count == j, lambda I_, fr, j: setattr(unit, 'count', j))
+
+    def run(self, I):
+        E = I.E
+        self.count = 0
+        n = E.new_int('n_actions', 0, None)
+        pkt = PL()
+        pkt.actions = AbsActions(n)
+        self.plist = PL.PlayerList()
+        I.call(raw(PL, 'apply'), pkt, self.plist)
+        E.check('packet.all-actions-once', self.count == n)
+        return None
+
+    def replay(self, model, label):
+        return replay_playerlist()
+
+
+# ------------------------------------------------------------------------------------------
+class SymArray(object):
+    def __init__(self, name, n):
+        self.arr = z3.Array(name, z3.IntSort(), z3.IntSort())
+        self.n = n
+
+    def __sym_len__(self):
+        return self.n
+
+    def __getitem__(self, i):
+        it = i.t if isinstance(i, SInt) else z3.IntVal(i)
+        return SInt(z3.Select(self.arr, it), 0, 255)
+
+    def __setitem__(self, i, v):
+        it = i.t if isinstance(i, SInt) else z3.IntVal(i)
+        vt = v.t if isinstance(v, SInt) else z3.IntVal(v)
+        self.writes.append(it) if hasattr(self, 'writes') else None
+        self.arr = z3.Store(self.arr, it, vt)
+
+
+MW = 128
+
+
+class MapPatch(Unit):
+    """map.patch: pixel i lands at (off_x + i mod w, off_z + i div w); every other cell is unchanged.  The pixel loop is
+    verified by a quantified for-loop invariant for a 128-wide map, every patch width 1..128, symbolic height/offsets/pixels."""
+    prop = 'C20'
+    name = 'C20.map.patch'
+    int_mode = 'int'
+    functions = (MP_ + 'apply_to_map',)
+    max_paths = 2000
+    timeout_ms = 8000
+    wall_budget_s = 90
+
+    def setup(self, I):
+        keys = loop_keys(raw(MapPacket, 'apply_to_map'), MP_ + 'apply_to_map', kind=ast.For)
+        unit = self
+
+        def inv(I_, fr, j):
+            jt = j.t if isinstance(j, SInt) else z3.IntVal(j)
+            return SBool(unit.view(jt))
+
+        def havoc(I_, fr, j):
+            if isinstance(j, int) and j == 0:
+                return
+            unit.mp.arr = z3.Array(I_.E.fresh_name('pixels@head'), z3.IntSort(), z3.IntSort())
+        I.loop_specs[keys[0]] = ForSpec('pixels', lambda I_, it: it.n, lambda I_, it, j: j, inv, havoc)
+
+    def view(self, jt):
+        """for all cells c: the cell holds pixel ((z-oz)*w + (x-ox)) if that index is < j and (x, z) lies in the patch
+        rectangle, else its original content."""
+        c = z3.Int('c')
+        w, ox, oz = self.w, self.ox.t, self.oz.t
+        x, z = c % MW, c / MW
+        idx = (z - oz) * w + (x - ox)
+        inp = z3.And(x >= ox, x < ox + w, z >= oz, idx < jt, idx >= 0)
+        return z3.ForAll([c], z3.Implies(z3.And(c >= 0, c < MW * MW),
+                                         z3.Select(self.mp.arr, c) == z3.If(inp, z3.Select(self.px.arr, idx),
+                                                                             z3.Select(self.mp0, c))))
+
+    def run(self, I):
+        E = I.E
+        self.w = 1 + E.fork(MW, 'patch-width')
+        h = E.new_int('patch-height', 0, MW)
+        self.ox = E.new_int('off_x', 0, MW - self.w)
+        self.oz = E.new_int('off_z', 0, MW)
+        E.assume(self.oz + h <= MW)
+        n = h * self.w
+        self.px = SymArray('patch', n)
+        self.mp = SymArray('map', MW * MW)
+        self.mp0 = self.mp.arr
+        pkt = MapPacket()
+        mp = MapPacket.Map.__new__(MapPacket.Map)
+        icons_old = ['old-icon']
+        vals = dict(map_id=E.new_int('map_id'), scale=E.new_int('scale'), icons=['i1', 'i2'], width=self.w, height=h,
+                    offset=(self.ox, self.oz), pixels=self.px, is_tracking_position=E.new_bool('tracking'),
+                    is_locked=E.new_bool('locked'))
+        for k, v in vals.items():
+            setattr(pkt, k, v)
+        mp.id, mp.scale, mp.icons, mp.width, mp.height, mp.pixels = 0, 0, icons_old, MW, MW, self.mp
+        mp.is_tracking_position, mp.is_locked = True, False
+        try:
+            I.call(raw(MapPacket, 'apply_to_map'), pkt, mp)
+        except PyRaise as e:
+            E.check('map.no-raise', False, note='%r' % (e.exc,))
+            return None
+        E.check('map.patch', SBool(self.view(n.t if isinstance(n, SInt) else z3.IntVal(n))),
+                note='pixel i at (off_x + i mod w, off_z + i div w); all other cells unchanged')
+        E.check('map.fields', mp.id is vals['map_id'] and mp.scale is vals['scale'] and mp.icons is icons_old and
+                mp.icons == ['i1', 'i2'] and mp.is_tracking_position is vals['is_tracking_position'] and
+                mp.is_locked is vals['is_locked'] and mp.width == MW, note='id/scale/icons/flags copied, icons in place')
+        return None
+
+    def replay(self, model, label):
+        return replay_map()
+
+    def bounded(self, rng, tier):
+        rp = replay_map(rng)
+        return dict(name='C20.map.patches', evaluations=rp['n'], bound='seeded patches (all widths 1..128 incl. other map widths 16/64) '
+                    'against a reference blit', failures=[dict(call=rp['call'], observed=rp['observed'], witness='map-patch')]
+                    if rp['confirmed'] else [])
+
+
+def replay_map(rng=None):
+    import random
+    rng = rng or random.Random(4)
+    n = 0
+    for mw in (128, 16, 64):
+        for _ in range(60):
+            n += 1
+            w = rng.randrange(1, mw + 1)
+            h = rng.randrange(0, mw + 1)
+            ox, oz = rng.randrange(0, mw - w + 1), rng.randrange(0, mw - h + 1)
+            pkt = MapPacket()
+            pkt.map_id, pkt.scale, pkt.icons, pkt.width, pkt.height = 5, 1, [], w, h
+            pkt.offset, pkt.pixels = (ox, oz), bytearray(rng.getrandbits(8) for _ in range(w * h))
+            pkt.is_tracking_position, pkt.is_locked = True, False
+            m = MapPacket.Map(5, width=mw, height=mw)
+            m.pixels = bytearray(rng.getrandbits(8) for _ in range(mw * mw))
+            ref = bytearray(m.pixels)
+            for i, p in enumerate(pkt.pixels):
+                ref[(ox + i % w) + mw * (oz + i // w)] = p
+            k, v = native_call(pkt.apply_to_map, m)
+            if k != 'ok' or m.pixels != ref:
+                return dict(confirmed=True, n=n, call='%dx%d patch at (%d,%d) on a %d-wide map' % (w, h, ox, oz, mw),
+                            observed='%s; pixels differ from the reference blit' % k)
+    return dict(confirmed=False, n=n, call='map patches', observed='conform')
+
+
+class MapSet(Unit):
+    prop = 'C20'
+    name = 'C20.map.set'
+    int_mode = 'int'
+    functions = (MP_ + 'apply_to_map_set', MP_ + 'Map.__init__', MP_ + 'MapSet.__init__')
+
+    def run(self, I):
+        E = I.E
+        mid, other = E.new_int('map_id'), E.new_int('other_id')
+        E.assume(mid != other)
+        existing = MapPacket.Map(0) if E.fork(2, 'known-map') else None
+        oth = MapPacket.Map(1)
+        m = TwoPointMap(I, mid, existing, other, oth)
+        ms = MapPacket.MapSet()
+        ms.maps_by_id = m
+        calls = []
+        I.override(raw(MapPacket, 'apply_to_map'), lambda I_, self_, mp: calls.append(mp), kind='contract')
+        pkt = MapPacket()
+        pkt.map_id = mid
+        I.call(raw(MapPacket, 'apply_to_map_set'), pkt, ms)
+        cur = m.e[0]
+        if existing is None:
+            E.check('mapset.creates-default', type(cur) is MapPacket.Map and cur.id is mid and cur.width == 128 and
+                    cur.height == 128 and len(cur.pixels) == 128 * 128 and not any(cur.pixels) and cur.icons == [],
+                    note='an unknown map id creates a default 128x128 map first')
+        else:
+            E.check('mapset.reuses', cur is existing)
+        E.check('mapset.applies-once', calls == [cur])
+        E.check('mapset.frame', m.e[1] is oth and m.other_writes == 0)
+        return None
+
+    def replay(self, model, label):
+        ms = MapPacket.MapSet()
+        p = MapPacket()
+        p.map_id, p.scale, p.icons, p.width, p.height, p.offset, p.pixels = 3, 0, [], 0, 0, None, None
+        p.is_tracking_position, p.is_locked = True, False
+        k, v = native_call(p.apply_to_map_set, ms)
+        bad = k != 'ok' or list(ms.maps_by_id) != [3] or ms.maps_by_id[3].id != 3
+        return dict(confirmed=bad, call='apply_to_map_set on an empty MapSet', observed='%s %r' % (k, ms.maps_by_id))
 
 
 def units(tier):
-    return []
+    return [PlayerListStep(), PlayerListOrder(), MapPatch(), MapSet()]
